@@ -33,7 +33,7 @@ CHECKS.update({
    note="Trusted: TLC, Json module, harness logging, tmpfs for the Stdfs sandbox. Offsets beyond +-10^6 are not exercised (TLC ints are 32 bit). Two handles open on one file are observed but only a panic is judged (outside the single-handle statement).",
    technique="TLA+ handle state machine model-checked with TLC + TLC trace validation of real handle operation sequences (crash points = drop after every prefix)"),
  "C18": dict(level=MC, ref="DESIGN.md 5/C18",
-   text="XdgEnv.tla gives every lookup as an operator over an environment (set of admissible outcomes where the documents are silent); MC_Xdg enumerates the environment cross-product as initial states, walks the config_dir search as a machine and checks precedence, order, no-empty-segment and getrids laws. The real functions run in hundreds of separately spawned, explicitly constructed environments (nothing inherited; verified inside the record) on Memfs and on a Stdfs sandbox, and TLC judges every record.",
+   text="XdgEnv.tla gives every lookup as an operator over an environment (set of admissible outcomes where the documents are silent); MC_Xdg enumerates the environment cross-product as initial states, walks the config_dir search as a machine and checks precedence, order, no-empty-segment and getrids laws. The real functions run in hundreds of separately spawned, explicitly constructed environments (nothing inherited; verified inside the record) on Memfs and on a Stdfs sandbox, and TLC judges every record. Extension: Creds.tla is the privilege state machine of sys::user (six process credentials; sudo_down / sudo_up / drop_sudo / set*id / switchuser as kernel-rule compositions), model-checked (no escalation, drop_sudo final, round trip; a negative-control cfg must fail) and validated against real programs, one forked child each, with kernel-reported credentials after every call.",
    note="Trusted: TLC, Json module, harness, tmpfs sandbox. DECISIONS (both readings admitted): XDG_*_HOME set to the empty string, relative values, HOME empty, PATH unset.",
    technique="TLA+ operator spec + search machine model-checked with TLC; TLC validation of records from one process per environment"),
  "C19": dict(level=MC, ref="DESIGN.md 5/C19",
